@@ -845,6 +845,7 @@ func c01R3(c *Ctx) {
 	})
 	c.Floor("C01.R3", "non-nil returns of PeekAvailable", 2, len(rets))
 	var ownPos, freePos token.Pos
+	var ownRets, freeRets []*ast.ReturnStmt
 	for i, r := range rets {
 		x := exprString(r.Results[0])
 		o := c.Require("C01.R3", fmt.Sprintf("PeekAvailable return#%d", i+1), fn, r,
@@ -853,10 +854,12 @@ func c01R3(c *Ctx) {
 			// classify for the ordering rule
 			own := c.Require("C01.R3", fmt.Sprintf("classify return#%d (same-pod?)", i+1), fn, r, "$r.podID == $p && $p != \"\"", map[string]string{"$r": x, "$p": param})
 			if own.Verdict == Discharged {
+				ownRets = append(ownRets, r)
 				if !ownPos.IsValid() {
 					ownPos = r.Pos()
 				}
 			} else {
+				freeRets = append(freeRets, r)
 				own.Verdict = Discharged
 				own.Detail = "allocatable-return"
 				own.NonTrivial = false
@@ -868,6 +871,25 @@ func c01R3(c *Ctx) {
 	}
 	c.Check(ownPos.IsValid() && freePos.IsValid() && ownPos < freePos, "C01.R3", "same-pod search precedes allocatable search", p.Pos(fn.Decl), fn.Key(),
 		"a repeated ADD gets the address the pod already holds", "no same-pod return before the first allocatable return")
+	// … and is complete by then: an allocatable address is returned only after the loop that looks for
+	// the pod's own address has seen the whole set (one walk that returns whichever comes first gives a
+	// pod that already holds an address a second one)
+	for _, or := range ownRets {
+		var loop ast.Node
+		for _, k := range pathTo(fn.Decl.Body, or) {
+			switch k.(type) {
+			case *ast.RangeStmt, *ast.ForStmt:
+				loop = k
+			}
+		}
+		if loop == nil {
+			continue
+		}
+		for _, fr := range freeRets {
+			c.Check(fr.Pos() > loop.End(), "C01.R3", "allocatable return only after the same-pod search has seen the whole set", p.Pos(fr), fn.Key(),
+				"for … { if v.podID == podID { return v } }  before any  return <allocatable>", "an allocatable address is returned from inside (or before the end of) the same-pod search loop")
+		}
+	}
 }
 
 // ---------- R4 writers of ownership / status ----------
